@@ -45,7 +45,10 @@ def _tasks(ctx: common.Ctx, n_bundles: int, n_corpus: int) -> Iterator[dict[str,
                    "args": {"files": b["files"], "modules": b["modules"], "mode": mode, "flags": flags, "style": style},
                    "_id": f"gen:{k}", "_stream": "generated"}
     if n_corpus:
-        cases = [c for c in corpus.load(["stubgen.test"]) if not c.files and c.main.strip() and not c.cmd]
+        # dataclass_transform inputs of stubgen.test decorate with functions that do not transform anything at run
+        # time, so stub and runtime disagree by construction of the input: not usable for the stubtest oracle
+        cases = [c for c in corpus.load(["stubgen.test"]) if not c.files and c.main.strip() and not c.cmd
+                 and "dataclass_transform" not in c.main]
         import random
         random.Random("C19-corpus").shuffle(cases)   # the same selection for every seed
         cases = cases[:n_corpus]
@@ -251,6 +254,12 @@ class Evaluator:
                     kind = M.coarse_kind(smodel.describe(e["path"]).replace("conditional-", ""))
                     last = e["path"][-1] if e["path"] else ""
                     if last.startswith("__") and last.endswith("__"):
+                        if last in ("__lt__", "__le__", "__gt__", "__ge__"):
+                            last = "__<ordering>__"
+                        elif last.startswith("__attrs_"):
+                            last = "__attrs_*__"
+                        elif m.split(".")[-1] in last:
+                            last = "__<name-with-module>__"
                         kind = kind.split(".")[0] + "." + last if len(e["path"]) > 1 else last
                     elif len(e["path"]) == 1 and e["msg"].strip() == "is not present in stub":
                         in_all = rt_all0 is not None and last in rt_all0
@@ -288,7 +297,7 @@ class Evaluator:
 def run(ctx: common.Ctx) -> None:
     quick = ctx.tier == "quick"
     scale = float(os.environ.get("VERIF_SCALE", "1"))
-    n_bundles = max(1, int((20 if quick else 500) * scale))
+    n_bundles = max(1, int((20 if quick else 300) * scale))
     n_corpus = int((40 if quick else 295) * scale)
     ctx.rule = ("generated bundle = 4 standalone modules + 1 package (core/util/sub.leaf, relative imports, re-exports); each "
                 "module mixes 8-16 definitions drawn from 20 feature emitters (vlib/c19_gen.py); plus importable inputs of "
